@@ -19,7 +19,9 @@ PROPS_FILE = 'ScnVerif/Props/C15.lean'
 TRANSLATORS = [tr_xye.translate]
 RULE = (
     'tables of 1..1e4 rows of finite float64 (uniform bit patterns, subnormals, extreme exponents, powers of ten, exact '
-    'halfway cases of the 19-digit rounding j/2^k and their neighbours), variances >= 0; headers: generated default, empty, '
+    'halfway cases of the 19-digit rounding j/2^k and their neighbours), variances >= 0; coordinate dtypes float64 / float32 / '
+    'int64 (|x| <= 2^53) / int32 and data dtypes float64 / float32 (the model prints the exact value of each input and takes '
+    'the square root in the precision of the data; datetime coordinates are refused with TypeError); headers: generated default, empty, '
     'random ASCII incl. newlines, "#", blanks, carriage returns and digits; 1..5 coordinates with / without coord=; written '
     'through a path and through a StringIO. The text written by save_xye is compared character for character with the Lean '
     "model's file, the arrays returned by load_xye bit for bit with the model's reader (also on hand-made tables: CR/LF/CRLF "
@@ -80,7 +82,7 @@ def err_kind(e) -> str:
     import scipp as sc
 
     for cls, k in ((sc.VariancesError, 'err:variances'), (sc.DimensionError, 'err:dimension'), (sc.CoordError, 'err:coord'),
-                   (KeyError, 'err:key'), (IndexError, 'err:index'), (ValueError, 'err:value')):
+                   (KeyError, 'err:key'), (IndexError, 'err:index'), (ValueError, 'err:value'), (TypeError, 'err:type')):
         if isinstance(e, cls):
             return k
     return 'err:other:' + type(e).__name__
@@ -176,17 +178,67 @@ def rand_name(rng, used):
 UNIT_POOL = ['counts', 'm', 'dimensionless', 'angstrom', 'us', 'meV', 'K', '1/angstrom', None]
 
 
-def make_da(rows, dim, coords, chosen, unit, cunits):
-    """coords: list of names; chosen carries rows' x, the others carry other numbers"""
+CDTYPES = ['float64', 'float64', 'float32', 'int64', 'int32']
+DDTYPES = ['float64', 'float64', 'float32']
+
+
+def from_bits32(n: int) -> float:
+    return struct.unpack('>f', struct.pack('>I', n))[0]
+
+
+def rand_float32(rng, nonneg=False) -> float:
+    """a finite float32 value (as a Python float holding it exactly)"""
+    import numpy as np
+
+    r = rng.random()
+    if r < 0.4:
+        while True:
+            n = rng.getrandbits(32)
+            if (n >> 23) & 0xFF != 0xFF:
+                x = from_bits32(n)
+                break
+    elif r < 0.5:
+        x = from_bits32(rng.getrandbits(23) | (rng.getrandbits(1) << 31))  # subnormal
+    elif r < 0.65:
+        x = float(np.float32(rng.choice([0.0, -0.0, 1.0, 0.1, -16.07, 0.25, 0.3, 3.4028234663852886e38, 1.1754943508222875e-38, 1e-45, 16777217.0, 1e10])))
+    else:
+        x = float(np.float32(rng.choice([1, -1]) * math.exp(rng.uniform(-20, 20))))
+    return abs(x) if nonneg else x
+
+
+def rand_int(rng, dtype) -> float:
+    """an integer the dtype holds and float64 represents exactly"""
+    r = rng.random()
+    if r < 0.4:
+        v = rng.randint(-1000, 1000)
+    elif dtype == 'int32':
+        v = rng.choice([rng.randint(-2**31, 2**31 - 1), 2**31 - 1, -2**31])
+    else:
+        v = rng.choice([rng.randint(-2**53, 2**53), 2**53, -2**53, rng.randint(-2**40, 2**40)])
+    return float(v)
+
+
+def rand_value(rng, dtype, nonneg=False) -> float:
+    if dtype == 'float64':
+        return rand_float(rng, nonneg)
+    if dtype == 'float32':
+        return rand_float32(rng, nonneg)
+    return rand_int(rng, dtype)
+
+
+def make_da(rows, dim, coords, chosen, unit, cunits, cdtype='float64', ddtype='float64'):
+    """coords: list of names; chosen carries rows' x (in dtype cdtype), the others carry other numbers;
+    rows hold the exact values as Python floats"""
     import numpy as np
     import scipp as sc
 
-    xs = np.array([r[0] for r in rows], dtype='float64')
-    ys = np.array([r[1] for r in rows], dtype='float64')
-    vs = np.array([r[2] for r in rows], dtype='float64')
+    xs = np.array([r[0] for r in rows], dtype='float64').astype(cdtype)
+    ys = np.array([r[1] for r in rows], dtype='float64').astype(ddtype)
+    vs = np.array([r[2] for r in rows], dtype='float64').astype(ddtype)
+    assert all(float(a) == b[0] or b[0] != b[0] for a, b in zip(xs, rows)) and all(float(a) == b[1] for a, b in zip(ys, rows))
     da = sc.DataArray(sc.array(dims=[dim], values=ys, variances=vs, unit=unit))
     for i, c in enumerate(coords):
-        vals = xs if c == chosen else xs * 0.0 + float(i + 1)
+        vals = xs if c == chosen else np.zeros(len(rows)) + float(i + 1)
         da.coords[c] = sc.array(dims=[dim], values=vals, unit=cunits[i])
     return da
 
@@ -254,8 +306,8 @@ def parse_model_load(out):
     return ('ok', n, vals[:n], vals[n:2 * n], vals[2 * n:])
 
 
-def rand_rows(rng, n):
-    return [(rand_float(rng), rand_float(rng), rand_float(rng, nonneg=True)) for _ in range(n)]
+def rand_rows(rng, n, cdtype='float64', ddtype='float64'):
+    return [(rand_value(rng, cdtype), rand_value(rng, ddtype), rand_value(rng, ddtype, nonneg=True)) for _ in range(n)]
 
 
 # ------------------------------------------------------------------------------------------------
@@ -282,7 +334,8 @@ def _corr_files(ctx):
     rng = ctx.rng
     cases = []
     for n in _sizes(ctx):
-        rows = rand_rows(rng, n)
+        cdtype, ddtype = rng.choice(CDTYPES), rng.choice(DDTYPES)
+        rows = rand_rows(rng, n, cdtype, ddtype)
         header = rand_header(rng)
         ncoords = rng.randint(1, 5)
         names = []
@@ -300,7 +353,7 @@ def _corr_files(ctx):
         cunits = [rng.choice(UNIT_POOL) for _ in names]
         path_mode = rng.random() < 0.4
         cases.append(dict(rows=rows, header=header, names=names, dim=dim, chosen=chosen, coord_arg=coord_arg, unit=unit,
-                          cunits=cunits, path=path_mode))
+                          cunits=cunits, path=path_mode, cdtype=cdtype, ddtype=ddtype))
     import scipp as sc
 
     # generated headers need str(unit): ask the model for them first
@@ -315,24 +368,25 @@ def _corr_files(ctx):
     for c in cases:
         c['model_header'] = unthex(next(gh)) if c['header'] is None else c['header']
         flat = ' '.join(f'{bits(x)} {bits(y)} {bits(v)}' for x, y, v in c['rows'])
-        lines.append(f"c15.save {thex(c['model_header'])} {flat}")
+        lines.append(f"c15.save {'f' if c['ddtype'] == 'float32' else 'd'} {thex(c['model_header'])} {flat}")
     outs = ctx.driver(lines)
     load_lines, load_cases = [], []
     for c, out in zip(cases, outs):
-        da = make_da(c['rows'], c['dim'], c['names'], c['chosen'], c['unit'], c['cunits'])
+        da = make_da(c['rows'], c['dim'], c['names'], c['chosen'], c['unit'], c['cunits'], c['cdtype'], c['ddtype'])
         real = save_real(da, c['header'], c['coord_arg'], c['path'])
+        ctx.count(f"save:dtype:{c['cdtype']}/{c['ddtype']}")
         model = unthex(out)
         n = len(c['rows'])
         hk = 'generated' if c['header'] is None else ('empty' if c['header'] == '' else ('cr' if '\r' in c['header'] else 'text'))
         ctx.count(f'save:{"path" if c["path"] else "sio"}:header-{hk}')
         ctx.count('save:rows:' + ('1' if n == 1 else '2-99' if n < 100 else '100-9999' if n < 10000 else '10000'))
-        ident = ('save', c['header'], tuple(c['names']), c['chosen'], c['unit'], tuple(c['cunits']), c['path'],
+        ident = ('save', c['header'], tuple(c['names']), c['chosen'], c['unit'], tuple(c['cunits']), c['path'], c['cdtype'], c['ddtype'],
                  tuple(bits(v) for r in c['rows'] for v in r))
-        ctx.case(ident, True, sample={'op': 'save', 'rows': n, 'header': c['header'], 'path': c['path'], 'first_line_impl': real.split('\n')[0][:90],
+        ctx.case(ident, True, sample={'op': 'save', 'rows': n, 'header': c['header'], 'path': c['path'], 'coord_dtype': c['cdtype'], 'data_dtype': c['ddtype'], 'first_line_impl': real.split('\n')[0][:90],
                                       'last_line_impl': real.rstrip('\n').split('\n')[-1]})
         if real != model:
             i = next((i for i, (a, b) in enumerate(zip(real, model)) if a != b), min(len(real), len(model)))
-            ctx.disagree({'op': 'save', 'header': c['header'], 'rows': [[bits(v) for v in r] for r in c['rows'][:50]], 'path': c['path'],
+            ctx.disagree({'op': 'save', 'coord_dtype': c['cdtype'], 'data_dtype': c['ddtype'], 'header': c['header'], 'rows': [[bits(v) for v in r] for r in c['rows'][:50]], 'path': c['path'],
                           'coord_arg': c['coord_arg'], 'names': c['names'], 'dim': c['dim']},
                          real[max(0, i - 60):i + 60], model[max(0, i - 60):i + 60], f'text differs at offset {i}')
             continue
@@ -444,12 +498,12 @@ def _refusal_cases():
                 if nc == 0 and arg in ('first', 'last'):
                     continue
                 for edges in ('none', 'chosen', 'other', 'all'):
-                    for scalar in ('none', 'chosen', 'other'):
+                    for scalar in ('none', 'chosen', 'other', 'dt-chosen', 'dt-other', 'int-chosen', 'f32-chosen'):
                         if nd != 1 and (edges != 'none' or scalar != 'none'):
                             continue
                         if nc == 0 and (edges != 'none' or scalar != 'none'):
                             continue
-                        if nc == 1 and (edges == 'other' or scalar == 'other'):
+                        if nc == 1 and (edges == 'other' or scalar in ('other', 'dt-other')):
                             continue
                         yield (hv, nd, mk, nc, dimc, arg, edges, scalar)
 
@@ -479,13 +533,22 @@ def _build_refusal(case):
         is_chosen = nm == chosen
         e = nd == 1 and (edges == 'all' or (edges == 'chosen' and is_chosen) or (edges == 'other' and not is_chosen))
         s = nd == 1 and ((scalar == 'chosen' and is_chosen) or (scalar == 'other' and not is_chosen))
+        dt = nd == 1 and ((scalar == 'dt-chosen' and is_chosen) or (scalar == 'dt-other' and not is_chosen))
         if nd == 0 or s:
             da.coords[nm] = sc.scalar(1.5)
-            desc.append((nm, 0, False))
+            desc.append((nm, 0, False, True))
         else:
             m = n + 1 if e else n
-            da.coords[nm] = sc.array(dims=['x'], values=np.arange(float(m)))
-            desc.append((nm, 1, e))
+            vals = np.arange(float(m))
+            if dt:
+                da.coords[nm] = sc.array(dims=['x'], values=vals.astype('int64').astype('datetime64[s]'), unit='s')
+            elif scalar == 'int-chosen' and is_chosen:
+                da.coords[nm] = sc.array(dims=['x'], values=vals.astype('int64'))
+            elif scalar == 'f32-chosen' and is_chosen:
+                da.coords[nm] = sc.array(dims=['x'], values=vals.astype('float32'))
+            else:
+                da.coords[nm] = sc.array(dims=['x'], values=vals)
+            desc.append((nm, 1, e, not dt))
     if mk:
         da.masks['m'] = sc.array(dims=dims, values=np.zeros(shape, dtype=bool)) if nd else sc.scalar(False)
     return da, argname, desc
@@ -501,8 +564,8 @@ def _corr_refusals(ctx):
         built.append((da, argname))
         toks = ['c15.check', '1' if case[0] else '0', str(case[1]), '1' if case[2] else '0', thex('x'),
                 'none' if argname is None else thex(argname)]
-        for nm, nd, e in desc:
-            toks += [thex(nm), str(nd), '1' if e else '0']
+        for nm, nd, e, num in desc:
+            toks += [thex(nm), str(nd), '1' if e else '0', '1' if num else '0']
         lines.append(' '.join(toks))
     outs = ctx.driver(lines)
     for case, (da, argname), out in zip(cases, built, outs):
@@ -530,6 +593,18 @@ def ulp_distance(a: float, b: float) -> float:
     return abs(int(bits(abs(a)), 16) - int(bits(abs(b)), 16))
 
 
+def _ulp32(v: float) -> Fraction:
+    """spacing of float32 numbers at the non-negative float32 value v"""
+    import numpy as np
+
+    f = np.float32(v)
+    with np.errstate(all='ignore'):
+        up = float(np.nextafter(f, np.float32(np.inf)))
+    if math.isfinite(up):
+        return Fraction(up) - Fraction(float(f))
+    return Fraction(float(f)) - Fraction(float(np.nextafter(f, np.float32(0))))
+
+
 def check_roundtrip(a):
     """a: rows (bit triples), header, names, dim, coord_arg, chosen, path"""
     import numpy as np
@@ -537,7 +612,9 @@ def check_roundtrip(a):
     from scippneutron.io.xye import load_xye, save_xye
 
     rows = [tuple(unbits(h) for h in r) for r in a['rows']]
-    da = make_da(rows, a['dim'], a['names'], a['chosen'], a.get('unit', 'counts'), a.get('cunits') or ['m'] * len(a['names']))
+    cdtype, ddtype = a.get('cdtype', 'float64'), a.get('ddtype', 'float64')
+    da = make_da(rows, a['dim'], a['names'], a['chosen'], a.get('unit', 'counts'), a.get('cunits') or ['m'] * len(a['names']),
+                 cdtype, ddtype)
     kw = {}
     if a['header'] is not None:
         kw['header'] = a['header']
@@ -578,12 +655,16 @@ def check_roundtrip(a):
     xs = back.coords[a['chosen']].values
     for i, (x, y, v) in enumerate(rows):
         if bits(xs[i]) != bits(x):
-            return 'coord', f'row {i}: coordinate {x!r} ({bits(x)}) read back as {float(xs[i])!r} ({bits(xs[i])})'
+            return 'coord', f'row {i}: {cdtype} coordinate {x!r} ({bits(x)}) read back as {float(xs[i])!r} ({bits(xs[i])})'
         if bits(back.values[i]) != bits(y):
-            return 'values', f'row {i}: value {y!r} ({bits(y)}) read back as {float(back.values[i])!r} ({bits(back.values[i])})'
-        u = ulp_distance(float(back.variances[i]), v)
+            return 'values', f'row {i}: {ddtype} value {y!r} ({bits(y)}) read back as {float(back.values[i])!r} ({bits(back.values[i])})'
+        if ddtype == 'float32':
+            # few units in the last place of the precision the variance was given in
+            u = abs(Fraction(float(back.variances[i])) - Fraction(v)) / _ulp32(v) if math.isfinite(float(back.variances[i])) else math.inf
+        else:
+            u = ulp_distance(float(back.variances[i]), v)
         if not u <= 2:
-            return 'variances', f'row {i}: variance {v!r} read back as {float(back.variances[i])!r}: {float(u):.3g} ulp'
+            return 'variances', f'row {i}: {ddtype} variance {v!r} read back as {float(back.variances[i])!r}: {float(u):.3g} ulp'
     if not np.all(np.isfinite(back.variances)):
         return 'variances', 'non-finite variance read back'
     return None
@@ -604,7 +685,8 @@ def _blame(a, otherwise):
     return 'header:carriage-return' if '\r' in a['header'] else 'header:other'
 
 
-LOSSY = ['no-variances', 'bin-edges', 'masks', 'two-dims', 'zero-dims', 'no-coords', 'ambiguous-coord']
+LOSSY = ['no-variances', 'bin-edges', 'masks', 'two-dims', 'zero-dims', 'no-coords', 'ambiguous-coord', 'missing-coord-arg',
+         'datetime-coord']
 
 
 def check_lossy(a):
@@ -626,12 +708,18 @@ def check_lossy(a):
         m = n + 1 if kind == 'bin-edges' else n
         names = ['a', 'b', 'c'][:a.get('ncoords', 2)] if kind == 'ambiguous-coord' else ['x']
         for nm in names:
-            da.coords[nm] = sc.scalar(1.0) if kind == 'zero-dims' else sc.array(dims=['x'], values=np.arange(float(m)), unit='m')
+            if kind == 'datetime-coord':
+                da.coords[nm] = sc.array(dims=['x'], values=np.arange(m).astype('datetime64[s]'), unit='s')
+            else:
+                da.coords[nm] = sc.scalar(1.0) if kind == 'zero-dims' else sc.array(dims=['x'], values=np.arange(float(m)), unit='m')
     if kind == 'masks':
         da.masks['m'] = sc.array(dims=['x'], values=np.zeros(n, dtype=bool))
     buf = io.StringIO()
     try:
-        save_xye(buf, da, **({'header': a['header']} if a.get('header') is not None else {}))
+        kw = {'header': a['header']} if a.get('header') is not None else {}
+        if kind == 'missing-coord-arg':  # exactly one coordinate, and a coord= that does not exist
+            kw['coord'] = 'no-such-coordinate'
+        save_xye(buf, da, **kw)
     except Exception:  # noqa: BLE001
         if buf.getvalue():
             return f'{kind}: refused, but {len(buf.getvalue())} characters were written first'
@@ -664,8 +752,9 @@ def _oracle_case(rng, n, allow_cr):
     else:
         chosen = rng.choice(names)
         arg = chosen
-    return {'rows': [[bits(v) for v in r] for r in rand_rows(rng, n)], 'header': rand_header(rng, allow_cr), 'names': names, 'dim': dim,
-            'chosen': chosen, 'coord_arg': arg, 'path': rng.random() < 0.5}
+    cdtype, ddtype = rng.choice(CDTYPES), rng.choice(DDTYPES)
+    return {'rows': [[bits(v) for v in r] for r in rand_rows(rng, n, cdtype, ddtype)], 'header': rand_header(rng, allow_cr), 'names': names,
+            'dim': dim, 'chosen': chosen, 'coord_arg': arg, 'path': rng.random() < 0.5, 'cdtype': cdtype, 'ddtype': ddtype}
 
 
 def oracle(ctx, deep):
@@ -679,6 +768,7 @@ def oracle(ctx, deep):
             r = ('exception', f'{type(e).__name__}: {e}')
         ctx.case(('roundtrip', repr(a)), True)
         ctx.count('oracle:roundtrip:' + ('path' if a['path'] else 'sio'))
+        ctx.count(f"oracle:roundtrip:dtype:{a['cdtype']}/{a['ddtype']}")
         if r:
             # minimise: a single row, then the smallest header of the same kind
             cands = [dict(a, rows=a['rows'][:1])] if len(a['rows']) > 1 else []
